@@ -119,3 +119,8 @@ Definition emit_ident_row start rest common extra (rows : list (str * N * bool))
   | Some row => Some (emit_ident start rest common (identd_of extra row) s)
   | None => None
   end.
+Definition emit_path_row start rest common extra (rows : list (str * N * bool)) (dialect : str) (parts : list str) : option str :=
+  match find_dialect dialect rows with
+  | Some row => Some (emit_path start rest common (identd_of extra row) parts)
+  | None => None
+  end.
